@@ -66,7 +66,7 @@ func (f *Fill) Call(s *slip.Scope, args slip.List, depth int) (result slip.Objec
 	if v, ok := slip.GetArgsKeyValue(kargs, slip.Symbol(":start")); ok {
 		start = getFixnumArg(s, v, ":start", depth)
 	}
-	if v, ok := slip.GetArgsKeyValue(kargs, slip.Symbol(":end")); ok {
+	if v, ok := slip.GetArgsKeyValue(kargs, slip.Symbol(":end")); ok && v != nil {
 		end = getFixnumArg(s, v, ":end", depth)
 	}
 	result = args[0]
